@@ -31,6 +31,7 @@ class MessageExtractor:
 
         for node in nodes:
             child_nodes = None
+            filter_code = None
             if (
                 in_translator_comments
                 and isinstance(node, parsetree.Text)
@@ -78,6 +79,10 @@ class MessageExtractor:
                 code = node.code.code
             elif isinstance(node, parsetree.Expression):
                 code = node.code.code
+                if node.escapes:
+                    # the filters, as in ${x | fmt(_('msg'))}, are code as
+                    # well; they begin on the expression's last line
+                    filter_code = (node.escapes, node.text.count("\n"))
             else:
                 continue
 
@@ -111,6 +116,20 @@ class MessageExtractor:
             ):
                 yield message
                 used_translator_comments = True
+
+            if filter_code is not None:
+                code, offset = filter_code
+                if self.use_bytes:
+                    code = BytesIO(
+                        b"\n" + code.encode(input_encoding, "backslashreplace")
+                    )
+                else:
+                    code = StringIO("\n" + code)
+                for message in self.process_python(
+                    code, node.lineno - 1 + offset, translator_strings
+                ):
+                    yield message
+                    used_translator_comments = True
 
             if used_translator_comments:
                 translator_comments = []
